@@ -232,4 +232,15 @@ theorem cellOwner_agree (s t : RankState) (c : DCell) (h : ∀ g ∈ c.nodes, s.
 
 example : cellOwner [(7, 0), (3, 2), (9, 1), (5, 1)] = 2 ∧ cellPartNode [7, 3, 9, 5] = 1 := by decide
 
+/-! ## ghost refresh (no universal theorem: `ghostRefresh_spec` of DESIGN.md is tied by the streams only)
+
+    the literal model of `ref_node_ghost_int` (alltoall of the bucket sizes, alltoallv of the requested globals,
+    reply alltoallv, store) on a concrete 3-rank world: afterwards every ghost entry equals the owner's entry and the
+    owned entries are unchanged -/
+example : ghost Refine.Model.Comm.RefType.int 2
+    [[⟨1, 0, [10, 11]⟩, ⟨4, 1, [0, 0]⟩, ⟨7, 2, [0, 0]⟩], [⟨4, 1, [40, 41]⟩, ⟨1, 0, [5, 5]⟩],
+     [⟨7, 2, [70, 71]⟩, ⟨4, 1, [9, 9]⟩]]
+  = some [[⟨1, 0, [10, 11]⟩, ⟨4, 1, [40, 41]⟩, ⟨7, 2, [70, 71]⟩], [⟨4, 1, [40, 41]⟩, ⟨1, 0, [10, 11]⟩],
+          [⟨7, 2, [70, 71]⟩, ⟨4, 1, [40, 41]⟩]] := by decide +kernel
+
 end Refine.Props.C06
